@@ -6,7 +6,7 @@ META = dict(
                'mmd_*_metadata_keys, mmd_*_metavalue_for_key, mmd_engine_create*, mmd_engine_set_language, mmd_engine_free, mmd_engine_reset'],
     stubs=['mmd_engine_parse_string / mmd_engine_export_token_tree -> recorders of (text, extensions, language, quotes language, format) appending a marker derived from them',
            'epub_create, textbundle_create, opendocument_*_create, itmz_create, *_write_wrapper -> tagged recorders', 'fopen/fputs/fputc/fclose -> in-memory file recorder',
-           'mmd_engine_has_metadata / _metadata_keys / _metavalue_for_key -> recorders with an arbitrary fixed answer', 'd_string.c -> ds_model (C19)'],
+           'mmd_engine_has_metadata / _metadata_keys / _metavalue_for_key -> recorders with an arbitrary fixed answer', 'd_string.c -> ds_model (C19)', 'token_pair_engine_new/add_pairing/free -> empty (the pairing tables are irrelevant to the wrappers)'],
     assumptions=['source <= 3 bytes (the wrappers do not look at the text), every extension word, 13 formats, 7 languages'],
     outside=['the CLI (main.c + argtable3): option -> extension-bit mapping is straight-line code', 'what the engine does with the tuple (other properties)'],
 )
@@ -16,8 +16,8 @@ def harnesses(tier):
     hs = []
     for i, op in enumerate(['convert', 'convert_to_data', 'convert_to_file', 'metadata']):
         hs.append(dict(name='c06_' + op, src='c06/wrap.c', defs=dict(OP=i, N=N, DS_CAP=12),
-                       units=[dict(src='repo:mmd.c', remove=RM, cflags=FILEDEFS), 'repo:token.c', 'repo:token_pairs.c', 'repo:stack.c', 'repo:object_pool.c', 'repo:char.c', 'common/ds_model.c'],
-                       unwind=14, unwindset=['token_pair_engine_new.0:4'], object_bits=10, timeout=1500, mem_gb=10,
+                       units=[dict(src='repo:mmd.c', remove=RM, cflags=FILEDEFS), 'repo:token.c', 'repo:stack.c', 'repo:object_pool.c', 'repo:char.c', 'common/ds_model.c'],
+                       unwind=14, object_bits=10, timeout=1500, mem_gb=10,
                        native_whole_lib=True, slice=True,
                        bounds='source <= %d bytes x 2^17 extension sets x 13 formats x 7 languages' % N,
                        desc='%s: C-string, DString and engine variants hand the engine the same tuple and return its result' % op))
